@@ -92,7 +92,7 @@ func five(b byte) [5]byte { return [5]byte{b + 1, b - 1, b ^ 0x80, 0x00, 0xFF} }
 // nonTrivial: the input still carries a valid signature and version (field
 // decoding is reached); for DecodeObject a known type tag.
 func nonTrivial(entry int, d []byte) bool {
-	if entry == entObject || entry == entObjectPlain {
+	if entry == entObject || entry == entObjectPlain || entry == entTyped {
 		return len(d) >= 1 && (d[0] <= 14 || d[0] == 255)
 	}
 	return len(d) > 6 && d[0] == 0 && d[1] == 0x75 && d[2] == 0x47 && d[3] == 0x4F && d[4] == 0 && (d[5] == 1 || d[5] == 2)
@@ -185,7 +185,7 @@ func (r *runner) drain() {
 // entriesFor: which entry points an input derived from seed s goes through.
 func entriesFor(s *seedEnc, kind string) []int {
 	if s.IsObj {
-		return []int{entObject, entObjectPlain}
+		return []int{entObject, entObjectPlain, entTyped}
 	}
 	if kind == "sweep256" {
 		return []int{entDecodeFrom}
@@ -460,7 +460,7 @@ func genSampled(rt *rapid.T, bcs, objs []*seedEnc) job {
 	case rapid.IntRange(0, 9).Draw(rt, "anyentry") == 0:
 		entry = rapid.IntRange(0, nEntries-1).Draw(rt, "entry")
 	case isObj:
-		entry = rapid.SampledFrom([]int{entObject, entObject, entObjectPlain}).Draw(rt, "entry")
+		entry = rapid.SampledFrom([]int{entObject, entObject, entObjectPlain, entTyped}).Draw(rt, "entry")
 	default:
 		entry = rapid.SampledFrom([]int{entDecodeFrom, entDecodeFrom, entUnmarshal, entDecodeFromNil}).Draw(rt, "entry")
 	}
@@ -709,6 +709,6 @@ func FuzzDecodeObject(f *testing.F) {
 		}
 	}
 	f.Fuzz(func(t *testing.T, data []byte) {
-		fuzzOracle(t, []int{entObject, entObjectPlain}, data)
+		fuzzOracle(t, []int{entObject, entObjectPlain, entTyped}, data)
 	})
 }
